@@ -9,7 +9,7 @@
    counterexamples; it is tested by the correspondence run against the reference
    formatter of DigitModelSpec.v, not proved. *)
 From Coq Require Import NArith ZArith List Bool.
-From Qv Require Import gen.Tables_digit DigitModel DigitModelSpec DigitProofsInt DigitProofsReal DigitProofsSafety.
+From Qv Require Import gen.Tables_digit DigitModel DigitModelSpec DigitProofsInt DigitProofsReal DigitProofsSafety DigitProofsAccScale.
 Import ListNotations.
 Local Open Scope N_scope.
 
@@ -124,3 +124,70 @@ Proof.
   destruct (skip_nines_safe fuel buf index H1 H2) as [pos [A [B [C _]]]]. exists pos. auto.
 Qed.
 Print Assumptions c10_skip_scans_safe.
+
+(* ================= Accuracy phase: the scaling step of realToString is EXACT for |value| >= 1 ================= *)
+(* real_scale (DigitProofsAccScale) is, verbatim, the scaling block of real_to_string: *)
+Theorem c10_scale_is_the_block_of_real_to_string : forall fi pre number prec fmt,
+  let is_fixed := (fmt =? rf_semifixed) || (fmt =? rf_fixed) in
+  let precision := if (prec =? 0) && negb is_fixed then 1 else prec in
+  let bias := N.land number (fi_expmask fi) in
+  (bias =? fi_expmask fi) = false -> (bias =? 0) = false ->
+  real_to_string fi pre number prec fmt =
+  (let s1 := if negb (N.land number (fi_sign fi) =? 0) then pre ++ [ch_neg] else pre in
+   let mantissa := N.lor (N.land number (fi_mantmask fi)) (fi_lead fi) in
+   let be := N.shiftr bias (fi_msize fi) in
+   do '(b, fraction_length, round_up) <- real_scale fi mantissa be precision is_fixed;
+   do ds <- big_to_string 80 b;
+   let digits := add32 ((add32 (if fi_bias fi <=? be then be - fi_bias fi else fi_bias fi - be) 0 * 30103) mod two32 / 100000) 1 in
+   do run <-
+     (if fmt =? rf_semifixed then format_fixed false ds 0 precision digits fraction_length round_up
+      else if fmt =? rf_fixed then format_fixed true ds 0 precision digits fraction_length round_up
+      else format_default ds 0 precision digits fraction_length (fi_bias fi <=? be) round_up);
+   Ok (s1 ++ run)).
+Proof. exact real_to_string_scale. Qed.
+Print Assumptions c10_scale_is_the_block_of_real_to_string.
+
+(* integer path (value has no fraction bits left, or more integer digits than asked for): with
+   value = mantissa * 2^pe / 2^ms  the big integer is  floor (value / 10^drop)  and the flag is exactly
+   "value / 10^drop is not an integer" (this is what D49 repaired). *)
+Theorem c10_scale_exact_integer_path : forall fi mantissa be precision is_fixed b fl ru,
+  let ms := fi_msize fi in let pe := be - fi_bias fi in
+  mantissa <> 0 -> ms <= 64 -> fi_bias fi <= be -> be - fi_bias fi <= 4000 -> precision < 2 ^ 20 ->
+  let first_bit := ms - ctz mantissa in
+  let digits := (pe * 30103) / 100000 + 1 in
+  ((first_bit <=? pe) || ((precision <? digits) && negb is_fixed)) = true -> ctz mantissa <= ms ->
+  real_scale fi mantissa be precision is_fixed = Ok (b, fl, ru) ->
+  fl = 0 /\ exists drop, (drop = 0 \/ (is_fixed = false /\ drop = digits - (precision + 1)))
+    /\ b = (mantissa * 2 ^ pe) / (2 ^ ms * 10 ^ drop)
+    /\ ru = negb ((mantissa * 2 ^ pe) mod (2 ^ ms * 10 ^ drop) =? 0).
+Proof. exact scale_integer_path. Qed.
+Print Assumptions c10_scale_exact_integer_path.
+
+(* fraction path, values >= 1: with o the odd part of the mantissa and value = o / 2^F, the big integer is
+   floor (value * 10^fl) = floor (o * 5^fl / 2^(F - fl)), the flag is "value * 10^fl is not an integer", and
+   fl = min F (requested fraction digits + 1).  No 64-bit word is dropped early here (the binary shift is < 64).
+   NOT covered: values below 1 (exponent field < bias, incl. subnormals), where whole low words are dropped early
+   and the result is not provably the exact floor; the formatters that follow. *)
+Theorem c10_scale_exact_fraction_path_ge1 : forall fi mantissa be precision is_fixed b fl ru,
+  let ms := fi_msize fi in let pe := be - fi_bias fi in
+  mantissa <> 0 -> ms <= 63 -> fi_bias fi <= be -> be - fi_bias fi <= 4000 -> precision < 2 ^ 20 ->
+  let fs := ctz mantissa in
+  let digits := (pe * 30103) / 100000 + 1 in
+  fs <= ms -> ((ms - fs <=? pe) || ((precision <? digits) && negb is_fixed)) = false ->
+  real_scale fi mantissa be precision is_fixed = Ok (b, fl, ru) ->
+  let o := mantissa / 2 ^ fs in
+  let F := ms - fs - pe in
+  fl <= F /\ b = (o * 5 ^ fl) / 2 ^ (F - fl) /\ ru = negb ((o * 5 ^ fl) mod 2 ^ (F - fl) =? 0)
+  /\ fl = N.min F ((if is_fixed then precision else precision - digits) + 1).
+Proof. exact scale_fraction_path_ge1. Qed.
+Print Assumptions c10_scale_exact_fraction_path_ge1.
+
+(* non-vacuity: 11150.001 at Fixed 2 -> floor (11150.001 * 10^3) = 11150001 with the flag set;
+   1e22 at 6 significant digits -> floor (1e22 / 10^15) = 10^7, nothing cut off *)
+Theorem c10_scale_examples :
+  real_scale finfo_double (N.lor (N.land 4667355392203070374 dg_d_mantmask) dg_d_leadbit) 1036 2 true
+    = Ok (11150001, 3, true)
+  /\ real_scale finfo_double (N.lor (N.land 4936209963552724370 dg_d_mantmask) dg_d_leadbit) 1096 6 false
+    = Ok (10000000, 0, false).
+Proof. exact scale_examples. Qed.
+Print Assumptions c10_scale_examples.
